@@ -15,6 +15,15 @@ def inner_item_type(t):
     return t[1:]
 
 
+def _unordered(v):
+    """dictionaries compared without regard to key order (the order of input fields is not part of C05)"""
+    if isinstance(v, dict):
+        return {k: _unordered(v[k]) for k in sorted(v)}
+    if isinstance(v, list):
+        return [_unordered(x) for x in v]
+    return v
+
+
 def job(j):
     cfg = j["cfg"]
     st = {"w": None, "n": 0, "viol": [], "distinct": set(), "samples": [], "done_static": set()}
@@ -142,12 +151,44 @@ def job(j):
                         mm = [] if (isinstance(resp, dict) and resp.get("errors") and not w.dcalls) else ["%s (directive): hook ran / no error: %r %r" % (way, w.dcalls, resp)]
                     flag({"type": w.types[ti - 1], "ti": ti}, way + "-" + where, qq, variables, mm, resp)
 
+    def absent_nested_ways(w):
+        """a variable WITHOUT a runtime value at a nullable position inside a literal: a list item becomes null, an object field
+        is as if it had not been written (absent, or its default) - also when other variables of the request do have values"""
+        idx = {render.typeref(t): i for i, t in enumerate(w.types, 1)}
+        plans = [("[Int]", "[1, $x]", "Int", {"a": [1, None]}, {"a": [1, None]}),
+                 ("[[Int]]", "[[$x], [2]]", "Int", {"a": [[None], [2]]}, {"a": [[None], [2]]}),
+                 ("In1", "{r: 1, x: $x}", "Int", {"a": {"x": 1, "r": 1, "k": 1}}, {"a": {"x": None, "r": 1, "k": 1}}),
+                 ("In1", "{r: 1, k: $x}", "Int", {"a": {"x": 1, "r": 1, "k": 1}}, None),
+                 ("In2", "{s: $x}", "String", {"a": {"s": "1"}}, {"a": {"s": None}}),
+                 ("In2", "{n: {e: $x}}", "E", {"a": {"n": {"s": "1"}, "s": "1"}}, {"a": {"n": {"s": "1", "e": None}, "s": "1"}}),
+                 ("[In2]", "[{e: $x}]", "E", {"a": [{"s": "1"}]}, {"a": [{"s": "1", "e": None}]})]
+        for tys, lit, vt, exp_absent, exp_null in plans:
+            ti = idx[tys]
+            for where in ("field", "directive"):
+                for other in (False, True):
+                    head = "query ($x: %s%s)" % (vt, ", $w: Int" if other else "")
+                    extra = " e1(a: $w)" if other else ""
+                    target = ("e%d(a: %s)" if where == "field" else "s @p%d(a: %s)") % (ti, lit)
+                    q = "%s { %s%s }" % (head, target, extra)
+                    for variables, exp in (({"w": 3} if other else {}, exp_absent), (dict({"x": None}, **({"w": 3} if other else {})), exp_null)):
+                        if exp is None:
+                            continue
+                        resp = w.run(q, variables)
+                        st["n"] += 1
+                        if where == "field":
+                            got = [c[2] for c in w.calls if c[0] == "e%d" % ti]
+                        else:
+                            got = [d[1] for d in w.dcalls]
+                        ok = isinstance(resp, dict) and not resp.get("errors") and len(got) == 1 and render.strict_eq(_unordered(got[0]), _unordered(exp))
+                        flag({"type": w.types[ti - 1], "ti": ti}, "valueless-variable-at-nullable-nested-position-" + where, q, variables,
+                             [] if ok else ["nested variable %s: saw %r, expected %r (%r)" % ("null" if "x" in variables else "without value", got, exp, resp)], resp)
+
     def single_for_list_ways(w):
         """a single (non-list) literal containing a variable where a list is declared is wrapped, the variable kept"""
         idx = {render.typeref(t): i for i, t in enumerate(w.types, 1)}
-        for tys, vt, lit, mkexp in [("[In1]", "Int!", "{r: $x}", lambda v: [{"x": 1, "r": v}]),
-                                    ("[[In1]]", "Int!", "[{r: $x}]", lambda v: [[{"x": 1, "r": v}]]),
-                                    ("[[In1]]", "Int!", "{r: $x}", lambda v: [[{"x": 1, "r": v}]]),
+        for tys, vt, lit, mkexp in [("[In1]", "Int!", "{r: $x}", lambda v: [{"x": 1, "r": v, "k": 1}]),
+                                    ("[[In1]]", "Int!", "[{r: $x}]", lambda v: [[{"x": 1, "r": v, "k": 1}]]),
+                                    ("[[In1]]", "Int!", "{r: $x}", lambda v: [[{"x": 1, "r": v, "k": 1}]]),
                                     ("[In2!]!", "String", "{s: $x}", lambda v: [{"s": v}]),
                                     ("[Int]", "Int", "$x", lambda v: [v] if False else v)]:
             ti = idx[tys]
@@ -171,7 +212,7 @@ def job(j):
                  ("[[Int!]!]!", "Int!", "[[$x], [2]]", lambda v: [[v], [2]], [5, 6]),
                  ("In2", "String", "{n: {n: {s: $x}}}", lambda v: {"n": {"n": {"s": v, }, "s": "1"}, "s": "1"}, ["a", "b", "a"]),
                  ("[In1]", "Int", "[{r: 1, y: [2, $x]}]", None, [5, 6]),
-                 ("In1", "Int!", "{r: 1, y: [$x]}", lambda v: {"x": 1, "y": [v], "r": 1}, [5, 6, 5])]
+                 ("In1", "Int!", "{r: 1, y: [$x]}", lambda v: {"x": 1, "y": [v], "r": 1, "k": 1}, [5, 6, 5])]
         for tys, vt, lit, mkexp, vals in plans:
             ti = idx[tys]
             for q, where in (("query ($x: %s) { s e%d(a: %s) }" % (vt, ti, lit), "field"), ("query ($x: %s) { s @p%d(a: %s) }" % (vt, ti, lit), "directive")):
@@ -181,7 +222,7 @@ def job(j):
                     if mkexp is None:
                         # [In1] with a nullable Int variable inside y: [Int!]: only that the value follows the variable is checked
                         got = (w.calls[0][2] if where == "field" and w.calls else (w.dcalls[0][1] if w.dcalls else None))
-                        ok = isinstance(resp, dict) and not resp.get("errors") and got == {"a": [{"x": 1, "y": [2, val], "r": 1}]}
+                        ok = isinstance(resp, dict) and not resp.get("errors") and got == {"a": [{"x": 1, "y": [2, val], "r": 1, "k": 1}]}
                         mm = [] if ok else ["deep variable (%s): saw %r for $x=%r (%r)" % (where, got, val, resp)]
                     else:
                         exp = {"a": mkexp(val)}
@@ -196,6 +237,7 @@ def job(j):
             if cfg.endswith("_0.cfg"):
                 deep_ways(st["w"])
                 null_nested_ways(st["w"])
+                absent_nested_ways(st["w"])
                 single_for_list_ways(st["w"])
             if cfg.endswith("_0.cfg"):
                 illtyped_ways(st["w"])
